@@ -18,11 +18,12 @@ fn simpler_tys(t: &Ty) -> Vec<Ty> {
             v.push((**x).clone());
             v.push((**k).clone());
         }
-        Ty::Tup(xs) => {
+        Ty::Tup(xs) | Ty::Gen(_, xs) => {
             for x in xs {
                 v.push(x.clone());
             }
         }
+        Ty::Arr(x, _) => v.push((**x).clone()),
     }
     v
 }
